@@ -160,7 +160,8 @@ class MonoTimer(Timer):
         """remaining time property getter,
         Returns remaining time in seconds (fractional) before ._stop.
         """
-        return (self._stop - self.latest)
+        latest = self.latest  # may retrograde ._stop so must be read first
+        return (self._stop - latest)
 
 
     @property
